@@ -575,7 +575,9 @@ def f5(e: Engine, rep: Report):
 
 def f6(e: Engine, rep: Report):
     ctx = e.method_ctx('slimta.smtp.io.IO', 'recv_reply')
-    g = e.build(ctx, raises=lambda b, n, r: set())
+    g = e.build(ctx, raises=lambda b, n, r: set(),
+                inline=e.inline_same_self(deny=['buffered_recv',
+                                                'raw_recv']), max_depth=3)
     where = ctx.func.qname
     rep.functions.add(where)
     recs = [n for n in g.nodes if n.kind == 'call' and
